@@ -133,7 +133,12 @@ def _sedov_res(c):
     return hydro_more.sedov_resolve(c)
 
 
-reg("Sedov", hydro="Sedov", fields=GAS_FIELDS | {"sound_speed"}, cls="C", tol=1e-9, floor=1e-1,
+# the 'singular' tag of the shared alphabet resolves to the exactly singular exponent, which the constructor cannot digest (ZeroDivisionError, C20's
+# business); 2.33334 is within the solver's |v2 - v*| <= 1e-4 window of the singular value 7/3 for the default geometry 3, gamma 1.4, so the
+# singular branch is explored too
+_sedov_alpha = dict(hydro.by_name("Sedov")["alphabet"])
+_sedov_alpha["omega"] = list(_sedov_alpha["omega"]) + [2.33334]
+reg("Sedov", hydro="Sedov", alphabet=_sedov_alpha, fields=GAS_FIELDS | {"sound_speed"}, cls="C", tol=1e-9, floor=1e-1,
     resolve=_sedov_res,
     pdims=lambda c: {"rho0": dim((RHO, 1), (LEN, _sedov_res(c)["omega"])),
                      "eblast": dim((MASS, 1), (LEN, c["geometry"] - 1.0), (TIME, -2))},
@@ -376,7 +381,10 @@ reg("EPpiston", hydro="EPpiston", fields=GAS_FIELDS | {"deviatoric stress"}, cls
 # ---- Guderley: the shock trajectory r_s = (-t_L)^(1/lambda) and t_C = 0.750024322 (t_L + 1) hard-wire the length and time
 # units (initial shock radius 1, focus at t = 0.750024322); the unit changes that keep those constants are M arbitrary and
 # (L, T) = (a^(1/lambda), a) acting on the Lazarus time.  Handled by props/C08.py (special generators).
-reg("Guderley", hydro="Guderley", fields=GAS_FIELDS | {"sound_speed"}, cls="B", tol=1e-9, gens=("M", "LT"), jtol=1e-9,
+# roots: two deviations ((geometry, gamma) x time interact: the branches behind the reflected shock are reached only after focus); one time
+# before (t_L = -0.6) and one after focus (t_L = +0.6) cover the four branches of ramsey.state
+reg("Guderley", hydro="Guderley", fields=GAS_FIELDS | {"sound_speed"}, cls="B", tol=1e-9, gens=("M", "LT"), jtol=1e-9, rootK=2,
+    times=lambda c: [0.3, 1.2],
     pdims=lambda c: {"rho0": RHO},
     relations=lambda c: rel_euler(GAS_FIELDS | {"sound_speed"}) + [("doc:rho(r,0) = rho0", [{"@density": 1}, {"rho0": 1}])],
     resolve=lambda c: {"geometry": c["_pair"][0], "gamma": c["_pair"][1], "rho0": c["rho0"]})
@@ -665,7 +673,9 @@ def root_points(f, cfg, t, s):
         a, b = f["domain"](cfg, t)
         sentinel = []
     if h is not None and "cell" in h:        # GenEOS: class-C, jumps smeared over one internal cell
+        call(s, np.array([a, b], float), t)     # the shared cell-size helper reads the public attribute x, which exists only after a call
         pts, nj, nc = hydro.sample_points(h, cfg, t, s)
+        nc += 1
         return np.asarray(pts, float), np.array(["lattice"] * len(pts)), nj, nc
     calls = [0]
 
